@@ -37,6 +37,18 @@ fn asis_states(name: &str, m0: &M) -> Option<(&'static str, Vec<M>)> {
             m.f.insert(0, a % b);
             Some(("KF-FLOAT.%-truncated", vec![m]))
         }
+        // doc: index "computed as in CODE.EXTRACT" (modulo the number of points, absolute value);
+        // upstream test code_insert_does_nothing_when_index_too_big pins: an index outside
+        // 1..points-1 is used raw and nothing is inserted
+        "CODE.INSERT" if !m.i.is_empty() && m.c.len() >= 2 => {
+            let i = m.i.remove(0);
+            let n = m.c[0].points() as i64;
+            if (i as i64) < 0 || (i as i64) >= n {
+                Some(("KF-CODE.INSERT-index-not-normalised", vec![m]))
+            } else {
+                None
+            }
+        }
         _ => None,
     }
 }
